@@ -8,8 +8,9 @@
 
    Model: Model/Cache.v (versions and provenance).  The reference is the model itself started afresh on
    the logical workspace: fresh_answer st k p = the answer of `init (logical_ws st)`.
-   The full statement is  forall ws h, fresh_run (init ws) h = true ; it is REFUTED (three classes,
-   shortest witnesses below) and proved outside them for histories whose logical inheritance relation
+   The full statement is  forall ws h, fresh_run (init ws) h = true ; it is REFUTED (two classes,
+   shortest witnesses below; a third one, the symbol table surviving didClose, was repaired by /repo
+   9bf8fa8 and is kept as a regression theorem) and proved outside them for histories whose logical inheritance relation
    stays acyclic (C02_holds_outside_partial). *)
 From GoldV Require Import Base Cache CacheProofs.
 
@@ -58,13 +59,13 @@ Qed.
 Theorem C02_close_reads_disk :
   forall ws h p i k, get (after ws h) p = Some i -> (k = KSym \/ k = KDiag) ->
     (exists i', get (after ws (h ++ [Close p])) p = Some i' /\ logical i' = disk i /\
-                saved i' = None /\ opened i' = None) /\
+                saved i' = None /\ opened i' = None /\ stab i' = None) /\
     snd (request (after ws (h ++ [Close p])) k p) =
       match k with KSym => ALocal p (disk i) | _ => ADiag p (disk i) (disk i) (Some (disk i)) end.
 Proof.
   intros ws h p i k G Hk.
   assert (E : after ws (h ++ [Close p]) = fst (step (after ws h) (Close p))) by apply after_last.
-  destruct (close_resets (after ws h) p i G) as (i' & G' & L & S & O & _).
+  destruct (close_resets (after ws h) p i G) as (i' & G' & L & S & O & T).
   rewrite E. split.
   - exists i'. repeat split; assumption.
   - rewrite (local_answer _ k p i' (step_wf _ _ (after_wf ws h)) G' Hk), L. reflexivity.
@@ -103,15 +104,13 @@ Proof. exact save_preserves. Qed.
 
 Theorem C02_close_preserves_iff :
   forall st p, AllFresh st ->
-    (AllFresh (fst (step st (Close p))) <->
-     trigger_dep st (Close p) = false /\ trigger_close st (Close p) = false).
+    (AllFresh (fst (step st (Close p))) <-> trigger_dep st (Close p) = false).
 Proof. exact close_iff. Qed.
 
-(* ---- the property outside the three known classes ---- *)
+(* ---- the property outside the known classes ---- *)
 
 (* KnownClass_C02 ws h: somewhere in h (R-dep) a change/close alters the text of a document another
-   document's cached table is linked to, or (R-close) a close takes a document back to the file while its
-   DocumentInfo keeps a table, or (R-tree) a hierarchy request is made when a header change has made the
+   document's cached table is linked to, or (R-tree) a hierarchy request is made when a header change has made the
    start-up class tree obsolete.  Partial: histories whose logical inheritance relation stays acyclic. *)
 Theorem C02_holds_outside_partial :
   forall ws h, acyc_run (init ws) h = true -> KnownClass_C02 ws h = false -> fresh_run (init ws) h = true.
@@ -131,8 +130,7 @@ Definition v0 (par : option nat) : version := mkV 0 par.
 Theorem C02_refuted_dependent_keeps_prechange_table :
   exists ws h,
     acyc_run (init ws) h = true /\
-    known_by trigger_dep (init ws) h = true /\ known_by trigger_close (init ws) h = false /\
-    known_by trigger_tree (init ws) h = false /\
+    known_by trigger_dep (init ws) h = true /\ known_by trigger_tree (init ws) h = false /\
     fresh_run (init ws) h = false /\
     run_server ws h = [Some (AChain [(1%nat, v0 (Some 0%nat)); (0%nat, v0 None)]); None;
                        Some (AChain [(1%nat, v0 (Some 0%nat)); (0%nat, v0 None)])].
@@ -141,27 +139,33 @@ Proof.
   vm_compute. repeat split; reflexivity.
 Qed.
 
-(* R-close: the parent is edited (not saved), analysed, closed; the child's look-ups still go through the
-   table of the closed text although the parent is back to the file *)
-Theorem C02_refuted_symbol_table_survives_close :
-  exists ws h,
-    acyc_run (init ws) h = true /\
-    known_by trigger_dep (init ws) h = false /\ known_by trigger_close (init ws) h = true /\
-    known_by trigger_tree (init ws) h = false /\
-    fresh_run (init ws) h = false /\
-    run_server ws h = [None; Some (AChain [(0%nat, mkV 1 None)]); None;
-                       Some (AChain [(1%nat, v0 (Some 0%nat)); (0%nat, mkV 1 None)])].
+(* regression (repaired by /repo 9bf8fa8): the parent is edited (not saved), analysed, closed; with the OLD
+   close handler, which kept DocumentInfo::symbol_table, the child's look-ups still went through the table
+   of the closed text although the parent was back to the file; with the current handler they are fresh *)
+Theorem C02_old_close_refuted :
+  exists ws h1 p k q,
+    let st := after ws h1 in
+    AllFresh st /\ has_dependents st p = false /\
+    ~ AllFresh (old_close st p) /\
+    answer_eqb (snd (request (old_close st p) k q)) (fresh_answer (old_close st p) k q) = false /\
+    snd (request (old_close st p) k q) = AChain [(1%nat, v0 (Some 0%nat)); (0%nat, mkV 1 None)] /\
+    fresh_run (init ws) (h1 ++ [Close p; Req k q]) = true /\
+    KnownClass_C02 ws (h1 ++ [Close p; Req k q]) = false.
 Proof.
-  exists [v0 None; v0 (Some 0%nat)], [Change 0 (mkV 1 None); Req KChain 0; Close 0; Req KChain 1].
-  vm_compute. repeat split; reflexivity.
+  exists [v0 None; v0 (Some 0%nat)], [Change 0 (mkV 1 None); Req KChain 0], 0%nat, KChain, 1%nat.
+  intro st.
+  destruct (holds_outside [v0 None; v0 (Some 0%nat)] [Change 0 (mkV 1 None); Req KChain 0]) as (_ & W & F & A);
+    [reflexivity|reflexivity|].
+  fold st in F. split; [exact F|]. split; [reflexivity|]. split.
+  - intro H. apply (old_close_iff st 0 F) in H. destruct H as [_ H]. vm_compute in H. discriminate.
+  - vm_compute. repeat split; reflexivity.
 Qed.
 
 (* R-tree: aC2's header is changed to name aC1 as parent; supertypes of aC2 still is the start-up answer *)
 Theorem C02_refuted_class_tree_never_rebuilt :
   exists ws h,
     acyc_run (init ws) h = true /\
-    known_by trigger_dep (init ws) h = false /\ known_by trigger_close (init ws) h = false /\
-    known_by trigger_tree (init ws) h = true /\
+    known_by trigger_dep (init ws) h = false /\ known_by trigger_tree (init ws) h = true /\
     fresh_run (init ws) h = false /\
     run_server ws h = [None; Some (ATree [(0%nat, v0 None)])] /\
     fresh_answer (after ws [Change 2 (mkV 1 (Some 1%nat))]) (KSuper false) 2 = ATree [(1%nat, v0 None)].
@@ -205,16 +209,18 @@ Proof.
   - apply C02_save_preserves; exact F.
 Qed.
 
-(* a close that breaks freshness although no other document depends on the closed one *)
+(* a close that breaks freshness: the closed document was edited and another document depends on it *)
 Example C02_close_nonvacuous :
   let ws := [v0 None; v0 (Some 0%nat)] in
-  let st := after ws [Change 0 (mkV 1 None); Req KChain 0] in
-  AllFresh st /\ has_dependents st 0 = false /\ ~ AllFresh (fst (step st (Close 0))).
+  let st := after ws [Change 0 (mkV 1 None); Req KChain 1] in
+  AllFresh st /\ has_dependents st 0 = true /\ ~ AllFresh (fst (step st (Close 0))) /\
+  AllFresh (fst (step st (Close 1))).
 Proof.
   intros ws st.
-  destruct (holds_outside ws [Change 0 (mkV 1 None); Req KChain 0]) as (_ & W & F & A); [reflexivity|reflexivity|].
-  fold st in F. split; [exact F|]. split; [reflexivity|].
-  intro H. apply (C02_close_preserves_iff st 0 F) in H. destruct H as [_ H]. vm_compute in H. discriminate.
+  destruct (holds_outside ws [Change 0 (mkV 1 None); Req KChain 1]) as (_ & W & F & A); [reflexivity|reflexivity|].
+  fold st in F. split; [exact F|]. split; [reflexivity|]. split.
+  - intro H. apply (C02_close_preserves_iff st 0 F) in H. vm_compute in H. discriminate.
+  - apply (C02_close_preserves_iff st 1 F). reflexivity.
 Qed.
 
 Print Assumptions C02_local_fresh.
@@ -230,7 +236,7 @@ Print Assumptions C02_close_preserves_iff.
 Print Assumptions C02_holds_outside_partial.
 Print Assumptions C02_single_event_outside.
 Print Assumptions C02_refuted_dependent_keeps_prechange_table.
-Print Assumptions C02_refuted_symbol_table_survives_close.
+Print Assumptions C02_old_close_refuted.
 Print Assumptions C02_refuted_class_tree_never_rebuilt.
 Print Assumptions C02_outside_nonvacuous.
 Print Assumptions C02_allfresh_nonvacuous.
